@@ -718,6 +718,78 @@ func runC12(c *Ctx) {
 				case hasOp("LOR") && negatedBoolLocal:
 					ctx, why = "or: left side cannot be empty", "the right side is never used"
 				}
+				if ctx == "or: left side cannot be empty" {
+					// `a or b` is a union: b's series are dropped only where their label signature equals one
+					// of a's. "a is never empty" alone does not make b dead (`vector(1) or foo{job="x"}` returns
+					// every foo series): the dead-marking has to stand under some test of b's labels against a's
+					sigTest := false
+					for _, a := range guards {
+						ast.Inspect(a.E, func(m ast.Node) bool {
+							switch y := m.(type) {
+							case *ast.CallExpr:
+								if isCallTo(info, y, "internal/parser/utils.canJoin") {
+									sigTest = true
+								}
+								if fn := Callee(info, y); fn != nil && (fn.Name() == "CanHaveLabel" || fn.Name() == "canMatch") {
+									sigTest = true
+								}
+							case *ast.SelectorExpr:
+								if y.Sel.Name == "GuaranteedLabels" || y.Sel.Name == "MatchingLabels" {
+									sigTest = true
+								}
+							}
+							return true
+						})
+						if id, ok := ast.Unparen(a.E).(*ast.Ident); ok {
+							// a flag: what decides it stands around the places that set it (the loop it is set
+							// in, the conditions it is set under)
+							if fo := info.Uses[id]; fo != nil {
+								ast.Inspect(fi.Decl.Body, func(m ast.Node) bool {
+									as2, isAs := m.(*ast.AssignStmt)
+									if !isAs {
+										return true
+									}
+									sets := false
+									for _, l := range as2.Lhs {
+										if objOf(info, l) == fo {
+											sets = true
+										}
+									}
+									if !sets {
+										return true
+									}
+									reads := func(e ast.Node) {
+										ast.Inspect(e, func(k ast.Node) bool {
+											if y, ok := k.(*ast.SelectorExpr); ok && (y.Sel.Name == "GuaranteedLabels" || y.Sel.Name == "MatchingLabels" || y.Sel.Name == "CanHaveLabel") {
+												sigTest = true
+											}
+											return true
+										})
+									}
+									for _, g := range lexicalGuards(pm, as2, fi.Decl.Body) {
+										reads(g.E)
+									}
+									for cur := pm[ast.Node(as2)]; cur != nil; cur = pm[cur] {
+										if rs, isRange := cur.(*ast.RangeStmt); isRange {
+											reads(rs.X)
+										}
+									}
+									return true
+								})
+							}
+							for _, d := range allDefs(info, fi.Decl.Body, id) {
+								ast.Inspect(d, func(m ast.Node) bool {
+									if y, ok := m.(*ast.SelectorExpr); ok && (y.Sel.Name == "GuaranteedLabels" || y.Sel.Name == "MatchingLabels" || y.Sel.Name == "CanHaveLabel") {
+										sigTest = true
+									}
+									return true
+								})
+							}
+						}
+					}
+					c.Check(sigTest, "C12-R3", fi.Obj.Name()+":or: the right side is dead only where its series can match the left side", as.Pos(), "label signatures compared",
+						"the right side of `or` is declared dead as soon as the left side always returns something, without looking at labels: `vector(1) or foo{job=\"x\"}` is reported as dead code although Prometheus returns every foo series (their label sets differ from the left side's)")
+				}
 				key := fi.Obj.Name() + ":IsDead = true when " + ctx
 				c.Check(ctx != "", "C12-R3", key, as.Pos(), why, "a source is declared dead code under `"+strings.TrimSuffix(g, " && ")+"`, which is not one of the reference situations (failed join, `unless on()` against an always-returning side, `or` after a side that cannot be empty, static comparison)")
 			}
